@@ -194,6 +194,30 @@ def check_composition(res, dump, kind, switches, wall):
                               f'not the concatenation of its separately measured columns {want!r}', dict(case, config=cfg))
                 return None
         res.count('lines_composed', n)
+    # one long-lived front-end object whose switches are toggled between requests
+    p = front({}, wall=wall)
+    combos = list(itertools.product((False, True), repeat=len(switches)))
+    for combo in [combos[-1], combos[0]] + [combos[(7 * k + 3) % len(combos)] for k in range(4)]:
+        cfg = dict(zip(switches, combo))
+        for k, v in cfg.items():
+            setattr(p, k, v)
+        try:
+            if kind == 'kevents':
+                got = list(p.formatted_kevents(io.BytesIO(dump['data'])))
+            elif kind == 'traces':
+                got = list(p.formatted_traces(io.BytesIO(dump['data'])))
+            else:
+                got = list(p.formatted_callstacks(io.BytesIO(dump['data'])))
+        except Exception as x:
+            res.violation(f'c14-raises-{core.exc_name(x)}', f'{kind} on a re-used object under {cfg}: {x!r}', dict(case, config=cfg))
+            return None
+        want = [''.join(cols[s][i] for s in switches if cfg[s]) + ('' if kind == 'kevents' else body[i]) for i in range(n)]
+        res.count('reused_object_requests')
+        if got != want:
+            res.violation(f'c14-composition-{kind}-on-reused-object', f'{kind}: after toggling the switches of one front-end '
+                          f'object to {[s for s in switches if cfg[s]]} its lines are not the composition of the columns',
+                          dict(case, config=cfg))
+            return None
     return cols, body
 
 
@@ -268,7 +292,7 @@ def check_process_column(res, dump, cols_traces):
 def run(ctx):
     res = core.Result()
     rng = ctx.rng
-    for i in range(ctx.pick(16, 250)):
+    for i in range(ctx.pick(16, 600)):
         dump = gen_dump(rng)
         wall = i % 3 == 0
         check_composition(res, dump, 'kevents', KEVENT_SWITCHES, wall)
@@ -292,6 +316,7 @@ def run(ctx):
     res.require('undeclared_thread_lines', 1)
     res.require('lines_of_threads_remapped_later', 1)
     res.require('colour_comparisons', 20)
+    res.require('reused_object_requests', 20)
     return res
 
 
